@@ -252,6 +252,43 @@ func lookupsSx(ll gtab.LookupList) (vlib.Sx, bool) {
 		subs := vlib.List{}
 		for _, s := range l.Subtables {
 			switch t := s.(type) {
+			case *gtab.ChainedSeqContext1:
+				cov, o := covList(t.Cov)
+				ok = ok && o
+				rules := vlib.List{}
+				for _, rs := range t.Rules {
+					rl := vlib.List{}
+					for _, r := range rs {
+						rl = append(rl, vlib.L(gidsSx(r.Backtrack), gidsSx(r.Input), gidsSx(r.Lookahead), actsSx(r.Actions)))
+					}
+					rules = append(rules, rl)
+				}
+				subs = append(subs, vlib.L(vlib.Atom("h1"), gidsSx(cov), rules))
+			case *gtab.ChainedSeqContext2:
+				cov, o := covList(t.Cov)
+				ok = ok && o
+				bc, o1 := classesSx(t.Backtrack)
+				ic, o2 := classesSx(t.Input)
+				lc, o3 := classesSx(t.Lookahead)
+				ok = ok && o1 && o2 && o3
+				rules := vlib.List{}
+				for _, rs := range t.Rules {
+					rl := vlib.List{}
+					for _, r := range rs {
+						rl = append(rl, vlib.L(vlib.Ints(r.Backtrack), vlib.Ints(r.Input), vlib.Ints(r.Lookahead), actsSx(r.Actions)))
+					}
+					rules = append(rules, rl)
+				}
+				subs = append(subs, vlib.L(vlib.Atom("h2"), gidsSx(cov), bc, ic, lc, rules))
+			case *gtab.ChainedSeqContext3:
+				setsSx := func(ss []coverage.Set) vlib.Sx {
+					l := vlib.List{}
+					for _, set := range ss {
+						l = append(l, gidsSx(set.Glyphs()))
+					}
+					return l
+				}
+				subs = append(subs, vlib.L(vlib.Atom("h3"), setsSx(t.Backtrack), setsSx(t.Input), setsSx(t.Lookahead), actsSx(t.Actions)))
 			case *gtab.SeqContext1:
 				cov, o := covList(t.Cov)
 				ok = ok && o
@@ -405,6 +442,14 @@ func lookupsFromSx(x vlib.Sx) (gtab.LookupList, error) {
 				return nil, fmt.Errorf("bad subtable")
 			}
 			kind, _ := vlib.AsAtom(sp[0])
+			if kind == "h1" || kind == "h2" || kind == "h3" {
+				st, err := chainFromSx(kind, sp)
+				if err != nil {
+					return nil, err
+				}
+				lt.Subtables = append(lt.Subtables, st)
+				continue
+			}
 			if kind == "c1" || kind == "c2" || kind == "c3" {
 				st, err := ctxFromSx(kind, sp)
 				if err != nil {
@@ -554,6 +599,125 @@ func classesFromSx(x vlib.Sx) (classdef.Table, error) {
 		}
 	}
 	return t, nil
+}
+
+func u16sFromSx(x vlib.Sx) ([]uint16, error) {
+	ii, err := vlib.AsInts(x)
+	if err != nil {
+		return nil, err
+	}
+	out := make([]uint16, len(ii))
+	for i, v := range ii {
+		out[i] = uint16(v)
+	}
+	return out, nil
+}
+
+func setsFromSx(x vlib.Sx) ([]coverage.Set, error) {
+	l, err := vlib.AsList(x)
+	if err != nil {
+		return nil, err
+	}
+	var out []coverage.Set
+	for _, s := range l {
+		gg, err := gidsFromSx(s)
+		if err != nil {
+			return nil, err
+		}
+		out = append(out, setFromList(gg))
+	}
+	return out, nil
+}
+
+func chainFromSx(kind string, sp []vlib.Sx) (gtab.Subtable, error) {
+	want := map[string]int{"h1": 3, "h2": 6, "h3": 5}[kind]
+	if len(sp) != want {
+		return nil, fmt.Errorf("bad chained context subtable")
+	}
+	if kind == "h3" {
+		st := &gtab.ChainedSeqContext3{}
+		var err error
+		if st.Backtrack, err = setsFromSx(sp[1]); err != nil {
+			return nil, err
+		}
+		if st.Input, err = setsFromSx(sp[2]); err != nil {
+			return nil, err
+		}
+		if st.Lookahead, err = setsFromSx(sp[3]); err != nil {
+			return nil, err
+		}
+		if st.Actions, err = actsFromSx(sp[4]); err != nil {
+			return nil, err
+		}
+		return st, nil
+	}
+	cov, err := gidsFromSx(sp[1])
+	if err != nil {
+		return nil, err
+	}
+	rl, err := vlib.AsList(sp[len(sp)-1])
+	if err != nil {
+		return nil, err
+	}
+	if kind == "h1" {
+		st := &gtab.ChainedSeqContext1{Cov: covFromList(cov)}
+		for _, rs := range rl {
+			rr, err := vlib.AsList(rs)
+			if err != nil {
+				return nil, err
+			}
+			var rules []*gtab.ChainedSeqRule
+			for _, r := range rr {
+				p, err := vlib.AsList(r)
+				if err != nil || len(p) != 4 {
+					return nil, fmt.Errorf("bad chain rule")
+				}
+				b, e1 := gidsFromSx(p[0])
+				i, e2 := gidsFromSx(p[1])
+				l, e3 := gidsFromSx(p[2])
+				a, e4 := actsFromSx(p[3])
+				if e1 != nil || e2 != nil || e3 != nil || e4 != nil {
+					return nil, fmt.Errorf("bad chain rule")
+				}
+				rules = append(rules, &gtab.ChainedSeqRule{Backtrack: b, Input: i, Lookahead: l, Actions: a})
+			}
+			st.Rules = append(st.Rules, rules)
+		}
+		return st, nil
+	}
+	st := &gtab.ChainedSeqContext2{Cov: covFromList(cov)}
+	if st.Backtrack, err = classesFromSx(sp[2]); err != nil {
+		return nil, err
+	}
+	if st.Input, err = classesFromSx(sp[3]); err != nil {
+		return nil, err
+	}
+	if st.Lookahead, err = classesFromSx(sp[4]); err != nil {
+		return nil, err
+	}
+	for _, rs := range rl {
+		rr, err := vlib.AsList(rs)
+		if err != nil {
+			return nil, err
+		}
+		var rules []*gtab.ChainedClassSeqRule
+		for _, r := range rr {
+			p, err := vlib.AsList(r)
+			if err != nil || len(p) != 4 {
+				return nil, fmt.Errorf("bad chain rule")
+			}
+			b, e1 := u16sFromSx(p[0])
+			i, e2 := u16sFromSx(p[1])
+			l, e3 := u16sFromSx(p[2])
+			a, e4 := actsFromSx(p[3])
+			if e1 != nil || e2 != nil || e3 != nil || e4 != nil {
+				return nil, fmt.Errorf("bad chain rule")
+			}
+			rules = append(rules, &gtab.ChainedClassSeqRule{Backtrack: b, Input: i, Lookahead: l, Actions: a})
+		}
+		st.Rules = append(st.Rules, rules)
+	}
+	return st, nil
 }
 
 func ctxFromSx(kind string, sp []vlib.Sx) (gtab.Subtable, error) {
